@@ -9,6 +9,17 @@ use sudachi::analysis::mlist::MorphemeList;
 use sudachi::analysis::stateful_tokenizer::StatefulTokenizer;
 use sudachi::analysis::Mode;
 use sudachi::dic::dictionary::JapaneseDictionary;
+use sudachi::dic::subset::InfoSubset;
+
+/// word-info field requests a thread's tokenizer may carry (index k): all fields / surface + POS / normalised + reading form
+const NSUB: u64 = 3;
+fn subset_of(k: u64) -> InfoSubset {
+    match k {
+        0 => InfoSubset::all(),
+        1 => InfoSubset::SURFACE | InfoSubset::POS_ID,
+        _ => InfoSubset::NORMALIZED_FORM | InfoSubset::READING_FORM,
+    }
+}
 
 // compile-time: the dictionary may be shared between threads
 fn assert_send_sync<T: Send + Sync>() {}
@@ -19,8 +30,8 @@ fn static_checks() {
 }
 
 /// digest under catch_unwind: 0 = the analysis panicked (e.g. a lock poisoned by another thread's panic)
-fn digest_c<'a>(dict: &'a JapaneseDictionary, tok: &mut StatefulTokenizer<&'a JapaneseDictionary>, mode: Mode, text: &str) -> u64 {
-    match catch(|| digest(dict, tok, mode, text)) {
+fn digest_c<'a>(dict: &'a JapaneseDictionary, tok: &mut StatefulTokenizer<&'a JapaneseDictionary>, mode: Mode, text: &str, k: u64) -> u64 {
+    match catch(|| digest(dict, tok, mode, text, k)) {
         Ok(h) => h,
         Err(_) => {
             *tok = StatefulTokenizer::new(dict, Mode::C);
@@ -29,7 +40,9 @@ fn digest_c<'a>(dict: &'a JapaneseDictionary, tok: &mut StatefulTokenizer<&'a Ja
     }
 }
 
-fn digest(dict: &JapaneseDictionary, tok: &mut StatefulTokenizer<&JapaneseDictionary>, mode: Mode, text: &str) -> u64 {
+/// digest of everything the tokenizer was asked for (field request k): ranges, word ids and costs always, the requested fields
+fn digest(dict: &JapaneseDictionary, tok: &mut StatefulTokenizer<&JapaneseDictionary>, mode: Mode, text: &str, k: u64) -> u64 {
+    tok.set_subset(subset_of(k));
     tok.set_mode(mode);
     tok.reset().push_str(text);
     if let Err(e) = tok.do_tokenize() {
@@ -39,7 +52,12 @@ fn digest(dict: &JapaneseDictionary, tok: &mut StatefulTokenizer<&JapaneseDictio
     ml.collect_results(tok).unwrap();
     let mut s = String::new();
     for m in ml.iter() {
-        s.push_str(&format!("{}|{}|{}|{}|{}|{}|{}|{:?}|{};", m.surface(), m.begin(), m.end(), m.part_of_speech().join(","), m.dictionary_form(), m.normalized_form(), m.reading_form(), m.word_id(), m.total_cost()));
+        s.push_str(&format!("{}|{}|{}|{:?}|{};", m.surface(), m.begin(), m.end(), m.word_id(), m.total_cost()));
+        match k {
+            0 => s.push_str(&format!("{}|{}|{}|{}|{:?};", m.part_of_speech().join(","), m.dictionary_form(), m.normalized_form(), m.reading_form(), m.synonym_group_ids())),
+            1 => s.push_str(&format!("{};", m.part_of_speech().join(","))),
+            _ => s.push_str(&format!("{}|{};", m.normalized_form(), m.reading_form())),
+        }
     }
     (hash_of(&s) >> 16) | 1 // keep it small enough to print, never 0
 }
@@ -84,6 +102,11 @@ pub fn run(args: &Args) {
     // anything yet (not even while loading: a user dictionary with automatic costs tokenizes during load), so that races on
     // lazily initialised shared state of plugins are exercised from the very first call
     let dict_plain = Arc::new(load_dictionary(&dir, system.clone(), vec![], &cfg).expect("dictionary"));
+    // reference instances, one per field request, never touched by the threads and never asked for another field request:
+    // what "a single-threaded run gives" must not depend on what other tokenizers of the shared dictionary asked for
+    let user2 = std::fs::read(format!("{}/user.dic.test", res)).unwrap();
+    let refs_user: Vec<JapaneseDictionary> = (0..NSUB).map(|_| load_dictionary(&dir, system.clone(), vec![user2.clone()], &cfg).expect("dictionary")).collect();
+    let refs_plain: Vec<JapaneseDictionary> = (0..NSUB).map(|_| load_dictionary(&dir, system.clone(), vec![], &cfg).expect("dictionary")).collect();
 
     let rounds = if args.replay.is_some() { 0 } else { args.n(40, 400) };
     for round in 0..rounds {
@@ -106,28 +129,37 @@ pub fn run(args: &Args) {
             }
         }
         let fresh = round % 2 == 1;
-        let base: Arc<JapaneseDictionary> = if fresh { dict_plain.clone() } else { dict_user.clone() };
+        // every 3rd round the threads carry different field requests (otherwise all of them ask for everything)
+        let mixed = round % 3 == 0;
         let dict: Arc<JapaneseDictionary> = if fresh {
             Arc::new(load_dictionary(&dir, system.clone(), vec![], &cfg).expect("dictionary"))
         } else {
             dict_user.clone()
         };
         let modes = [Mode::A, Mode::B, Mode::C];
-        // text id = index * 3 + mode
+        // analysis id = ((text index * 3) + mode) * NSUB + field request
         let mut table: Vec<(u64, u64)> = vec![];
-        {
-            let d: &JapaneseDictionary = &base;
-            let mut tok = StatefulTokenizer::new(d, Mode::C);
-            for (i, t) in pool_texts.iter().enumerate() {
-                for (mi, m) in modes.iter().enumerate() {
-                    table.push(((i * 3 + mi) as u64, digest_c(d, &mut tok, *m, t)));
+        for (i, t) in pool_texts.iter().enumerate() {
+            for (mi, m) in modes.iter().enumerate() {
+                for k in 0..NSUB {
+                    if k > 0 && !mixed {
+                        table.push((((i * 3 + mi) as u64) * NSUB + k, 1));
+                        continue;
+                    }
+                    let d: &JapaneseDictionary = if fresh { &refs_plain[k as usize] } else { &refs_user[k as usize] };
+                    let mut tok = StatefulTokenizer::new(d, Mode::C);
+                    table.push((((i * 3 + mi) as u64) * NSUB + k, digest_c(d, &mut tok, *m, t, k)));
                 }
             }
         }
         sink.tag(if fresh { "fresh_dictionary_first_calls_race" } else { "shared_warm_dictionary" });
         let slen = if contention { args.n(400, 3000) as u64 } else { rng.below(40) };
         let nthreads = if contention { 8 } else { nthreads };
-        let streams: Vec<Vec<u64>> = (0..nthreads).map(|_| (0..slen).map(|_| rng.below(36)).collect()).collect();
+        let ks: Vec<u64> = (0..nthreads).map(|ti| if mixed { (ti as u64) % NSUB } else { 0 }).collect();
+        let streams: Vec<Vec<u64>> = (0..nthreads).map(|ti| (0..slen).map(|_| rng.below(36) * NSUB + ks[ti]).collect()).collect();
+        if mixed {
+            sink.tag("threads_with_different_field_requests");
+        }
         let events: Arc<Mutex<Vec<(usize, u64)>>> = Arc::new(Mutex::new(vec![]));
         let barrier = Arc::new(Barrier::new(nthreads));
         let panics = Arc::new(AtomicUsize::new(0));
@@ -144,9 +176,10 @@ pub fn run(args: &Args) {
                 let mut tok = StatefulTokenizer::new(d, Mode::C);
                 barrier.wait();
                 for id in stream {
+                    let (id, k) = (id / NSUB, id % NSUB);
                     let text = &pool_texts[(id / 3) as usize];
                     let mode = [Mode::A, Mode::B, Mode::C][(id % 3) as usize];
-                    match catch(|| digest(d, &mut tok, mode, text)) {
+                    match catch(|| digest(d, &mut tok, mode, text, k)) {
                         Ok(h) => events.lock().unwrap().push((ti, h)),
                         Err(_) => {
                             panics.fetch_add(1, Ordering::SeqCst);
@@ -168,7 +201,7 @@ pub fn run(args: &Args) {
             let mut tok = StatefulTokenizer::new(d, Mode::C);
             for (i, t) in pool_texts.iter().enumerate() {
                 for (mi, m) in modes.iter().enumerate() {
-                    if digest_c(d, &mut tok, *m, t) != table[i * 3 + mi].1 {
+                    if digest_c(d, &mut tok, *m, t, 0) != table[(i * 3 + mi) * NSUB as usize].1 {
                         after_ok = false;
                     }
                 }
@@ -195,7 +228,7 @@ pub fn run(args: &Args) {
         for (t, h) in &events {
             let want = table[streams[*t][pos[*t]] as usize].1;
             if *h != want {
-                sink.fail(id, &format!("thread {} analysis #{} (text {:?}) differs from the single-threaded result", t, pos[*t], pool_texts[(streams[*t][pos[*t]] / 3) as usize]), "");
+                sink.fail(id, &format!("thread {} (field request {}) analysis #{} (text {:?}) differs from the single-threaded result", t, ks[*t], pos[*t], pool_texts[(streams[*t][pos[*t]] / NSUB / 3) as usize]), "");
                 break;
             }
             pos[*t] += 1;
@@ -226,6 +259,10 @@ pub fn run(args: &Args) {
         Ok(o) if o.status.success() => {
             let v: Value = std::fs::read_to_string(&op).ok().and_then(|s| serde_json::from_str(&s).ok()).unwrap_or(Value::Null);
             sink.extra("python_thread_analyses", v["analyses"].clone());
+            sink.extra("python_pretokenizer_adapter_calls", v["pretokenizer_calls"].clone());
+            if !v["pretokenizer_note"].is_null() {
+                sink.extra("python_pretokenizer_note", v["pretokenizer_note"].clone());
+            }
             if v["mismatches"].as_u64().unwrap_or(1) != 0 {
                 sink.fail(id, &format!("python threads: {} analyses differ from the sequential run, e.g. {}", v["mismatches"], v["example"]), "");
             }
